@@ -335,7 +335,7 @@ def run(ctx: Ctx) -> None:
     else:
         shard_run(ctx, _sweep_shard, extra=(list(range(0, 65)), B1_QUICK))
         shard_run(ctx, _sweep_shard, extra=(LENGTHS_Q, list(range(256))))
-    shard_run(ctx, _emit_shard, extra=(120 if ctx.quick else 3000,))
+    shard_run(ctx, _emit_shard, extra=(500 if ctx.quick else 5000,))
 
 
 def replay(ctx: Ctx, case: dict) -> None:
